@@ -92,7 +92,8 @@ impl Dict {
         if let Some((_, b)) = self.user.iter().find(|(n, _)| n == name) {
             return b.clone();
         }
-        let mut b = vec![0u8; 12];
+        // "u0": the empty user handle; "u64": the longest one (64 bytes)
+        let mut b = vec![0u8; match name { "u0" => 0, "u64" => 64, _ => 12 }];
         rng.fill_bytes(&mut b);
         self.user.push((name.to_string(), b.clone()));
         b
